@@ -582,5 +582,36 @@ def retry_close(lab):
     return plan(), d
 
 
-CORPUS = dict(retry_close=retry_close, interleaved=interleaved, monitor_meta=monitor_meta, monitor_mid=monitor_mid, stubbed=stubbed, sparse=sparse, two_runs_cleared=two_runs_cleared, late_wait=late_wait, norewind_section=norewind_section, configure_mid=configure_mid, count_norewind=count_norewind, declared=declared, double_stage=double_stage, failpause=failpause, defer_failpause=defer_failpause, count2=count2, scan2=scan2, scan3=scan3, rel_scan2=rel_scan2, list_scan2=list_scan2, grid2x2=grid2x2, adaptive=adaptive, tune=tune,
+def wait_move_on(lab):
+    """'wait and move on': polls a group with wait(timeout, error_on_timeout=False) while a slow move completes."""
+    from bluesky.utils import Msg
+
+    d = _std(lab)
+    d["slow"] = slow = Motor("slow", lab, delay=0.6)
+
+    def plan():
+        yield Msg("open_run")
+        yield Msg("checkpoint")
+        yield Msg("set", slow, 1.0, group="mv")
+        done = False
+        n = 0
+        while not done and n < 8:
+            n += 1
+            done = yield Msg("wait", None, group="mv", timeout=0.2, error_on_timeout=False)
+            yield Msg("null", None, ("poll", n))
+        yield Msg("checkpoint")
+        yield Msg("null", None, "after")
+        yield Msg("close_run")
+
+    return plan(), d
+
+
+def clearing_prelude(lab):
+    """An earlier call that makes itself non-resumable and completes."""
+    from bluesky.utils import Msg
+
+    return [Msg("checkpoint"), Msg("clear_checkpoint"), Msg("null", None, "prelude")]
+
+
+CORPUS = dict(wait_move_on=wait_move_on, retry_close=retry_close, interleaved=interleaved, monitor_meta=monitor_meta, monitor_mid=monitor_mid, stubbed=stubbed, sparse=sparse, two_runs_cleared=two_runs_cleared, late_wait=late_wait, norewind_section=norewind_section, configure_mid=configure_mid, count_norewind=count_norewind, declared=declared, double_stage=double_stage, failpause=failpause, defer_failpause=defer_failpause, count2=count2, scan2=scan2, scan3=scan3, rel_scan2=rel_scan2, list_scan2=list_scan2, grid2x2=grid2x2, adaptive=adaptive, tune=tune,
               fly1=fly1, bare=bare, cleanup=cleanup, staged_monitor=staged_monitor, nested_runs=nested_runs, flymon=flymon)
